@@ -145,6 +145,12 @@ func knownPredicate(pkgs []*packages.Package) func(*types.Func) bool {
 }
 
 type funcSrc struct {
+	sig  *types.Signature // for a local closure (decl is synthesised from the literal)
+	lit  *ast.FuncLit
+	// for a local closure: the variable and the end of the statement that defines it (a blank
+	// use is added there, because after inlining the variable may have no use left)
+	cvar   *types.Var
+	defEnd token.Pos
 	decl *ast.FuncDecl
 	pkg  *packages.Package
 	file string
@@ -175,6 +181,10 @@ type inliner struct {
 	counter int
 	// imports already added to a file ("file|path"), across rounds
 	importsAdded map[string]bool
+	// requireSingle: the call being tried stands where exactly one value is needed
+	requireSingle bool
+	closureCache  map[*types.Var]*funcSrc
+	closureBad    map[*types.Var]bool
 }
 
 func (il *inliner) src(file string) []byte {
@@ -284,6 +294,17 @@ func (il *inliner) planRound() (int, []string) {
 			for _, p := range il.pkgs {
 				for i, f := range p.Syntax {
 					if p.CompiledGoFiles[i] == g.file {
+						if alias == "\x00keep" {
+							var name string
+							var at int
+							fmt.Sscanf(path, "keep %s", &name)
+							if i := strings.LastIndex(path, "@"); i >= 0 {
+								fmt.Sscanf(path[i+1:], "%d", &at)
+								name = path[len("keep "):i]
+							}
+							byFile[g.file] = append(byFile[g.file], srcEdit{off: at, end: at, text: "; _ = " + name})
+							continue
+						}
 						if alias == "" {
 							// a type / constant alias declaration, appended to the file
 							at := len(il.src(g.file))
@@ -415,7 +436,13 @@ func (il *inliner) eligible(fs *funcSrc, self *types.Func) bool {
 	}
 	fs.ok = 2
 	fd := fs.decl
-	sig := self.Type().(*types.Signature)
+	sig := fs.sig
+	if self != nil {
+		sig = self.Type().(*types.Signature)
+	}
+	if sig == nil {
+		return false
+	}
 	if sig.Variadic() || sig.TypeParams() != nil || sig.RecvTypeParams() != nil {
 		return false
 	}
@@ -451,7 +478,7 @@ func (il *inliner) eligible(fs *funcSrc, self *types.Func) bool {
 			if id, ok := x.Fun.(*ast.Ident); ok && id.Name == "recover" {
 				bad = true
 			}
-			if callee := typeutil.StaticCallee(fs.pkg.TypesInfo, x); callee != nil && callee.Origin() == self {
+			if callee := typeutil.StaticCallee(fs.pkg.TypesInfo, x); self != nil && callee != nil && callee.Origin() == self {
 				bad = true
 			}
 		}
@@ -580,30 +607,114 @@ func (il *inliner) calleeText(fs *funcSrc, from, to token.Pos, repl map[token.Po
 }
 
 func (il *inliner) tryStmt(p *packages.Package, file string, s ast.Stmt) (inlineGroup, bool) {
-	var g inlineGroup
-	call, isExprStmt := callIn(s)
-	if call == nil {
-		return g, false
+	top, isExprStmt := callIn(s)
+	if top == nil {
+		return inlineGroup{}, false
 	}
+	// `h(a).M(b)`: the receiver expression is evaluated before anything else in the statement,
+	// so a helper call there (innermost first) can be hoisted as well
+	var chain []*ast.CallExpr
+	for c := top; c != nil; {
+		chain = append([]*ast.CallExpr{c}, chain...)
+		sel, ok := c.Fun.(*ast.SelectorExpr)
+		if !ok {
+			break
+		}
+		x := sel.X
+		for {
+			if pe, isP := x.(*ast.ParenExpr); isP {
+				x = pe.X
+				continue
+			}
+			break
+		}
+		c, _ = x.(*ast.CallExpr)
+	}
+	for _, c := range chain {
+		il.requireSingle = c != top
+		if g, ok := il.tryCall(p, file, s, c, isExprStmt && c == top); ok {
+			return g, true
+		}
+	}
+	// `x.Send(h(a))`: a helper call that is an argument of the statement's call, when nothing
+	// evaluated before it is a call (the function value and the earlier arguments only read
+	// variables): it is then the first call the statement makes, and Go leaves the order of
+	// variable reads relative to calls unspecified, so evaluating it just before the statement
+	// is one of the permitted orders
+	pure := func(e ast.Expr) bool {
+		ok := true
+		ast.Inspect(e, func(n ast.Node) bool {
+			switch x := n.(type) {
+			case *ast.CallExpr, *ast.FuncLit:
+				ok = false
+			case *ast.UnaryExpr:
+				if x.Op == token.ARROW {
+					ok = false
+				}
+			}
+			return ok
+		})
+		return ok
+	}
+	if len(chain) == 1 && pure(top.Fun) {
+		for _, a := range top.Args {
+			x := a
+			for {
+				if pe, isP := x.(*ast.ParenExpr); isP {
+					x = pe.X
+					continue
+				}
+				break
+			}
+			if c2, isCall := x.(*ast.CallExpr); isCall {
+				il.requireSingle = true
+				if g, ok := il.tryCall(p, file, s, c2, false); ok {
+					return g, true
+				}
+				break
+			}
+			if !pure(a) {
+				break
+			}
+		}
+	}
+	return inlineGroup{}, false
+}
+
+func (il *inliner) tryCall(p *packages.Package, file string, s ast.Stmt, call *ast.CallExpr, isExprStmt bool) (inlineGroup, bool) {
+	var g inlineGroup
+	var fs *funcSrc
+	var sig *types.Signature
+	calleeName := ""
 	callee := typeutil.StaticCallee(p.TypesInfo, call)
 	if callee == nil {
-		return g, false
-	}
-	callee = callee.Origin()
-	if callee.Pkg() != p.Types || callee.Exported() || il.known(callee) {
-		return g, false
+		// a call of a local variable that holds one function literal for its whole life
+		fs = il.localClosure(p, file, call)
+		if fs == nil {
+			return g, false
+		}
+		sig = fs.sig
+		calleeName = "local closure " + call.Fun.(*ast.Ident).Name
+	} else {
+		callee = callee.Origin()
+		if callee.Pkg() != p.Types || callee.Exported() || il.known(callee) {
+			return g, false
+		}
+		calleeName = funcKey(callee)
+		fs = il.decls[callee]
 	}
 	dbg := func(why string) {
 		if os.Getenv("VCHECK_INLINE_DEBUG") != "" {
-			fmt.Fprintf(os.Stderr, "inline: %s not inlined at %s: %s\n", funcKey(callee), il.fset.Position(call.Pos()), why)
+			fmt.Fprintf(os.Stderr, "inline: %s not inlined at %s: %s\n", calleeName, il.fset.Position(call.Pos()), why)
 		}
 	}
-	fs := il.decls[callee]
 	if fs == nil || !il.eligible(fs, callee) {
 		dbg("callee not eligible (defer/recover/labels/variadic/generic/recursive/unnamed parameters)")
 		return g, false
 	}
-	sig := callee.Type().(*types.Signature)
+	if callee != nil {
+		sig = callee.Type().(*types.Signature)
+	}
 	if len(call.Args) != sig.Params().Len() || call.Ellipsis.IsValid() {
 		return g, false
 	}
@@ -638,12 +749,26 @@ func (il *inliner) tryStmt(p *packages.Package, file string, s ast.Stmt) (inline
 			return g, false
 		}
 	}
-	hyg, repl, imports := il.hygienic(fs, p, call.Pos())
+	var hyg bool
+	var repl map[token.Pos]string
+	var imports map[string]string
+	if fs.lit != nil {
+		hyg = il.closureHygienic(fs, p, call.Pos())
+	} else {
+		hyg, repl, imports = il.hygienic(fs, p, call.Pos())
+	}
 	if !hyg {
 		dbg("an identifier of the callee resolves differently at the call site")
 		return g, false
 	}
 	g.imports = imports
+	if fs.lit != nil {
+		if g.imports == nil {
+			g.imports = map[string]string{}
+		}
+		// marker understood by planRound: keep the closure variable used
+		g.imports[fmt.Sprintf("keep %s@%d", fs.cvar.Name(), il.off(fs.defEnd))] = "\x00keep"
+	}
 	il.counter++
 	id := fmt.Sprintf("%d_%d", il.round, il.counter)
 	fd := fs.decl
@@ -693,6 +818,23 @@ func (il *inliner) tryStmt(p *packages.Package, file string, s ast.Stmt) (inline
 		for _, nm := range f.Names {
 			av := fmt.Sprintf("a__%s_%d", id, ai)
 			at := il.text(file, call.Args[ai].Pos(), call.Args[ai].End())
+			argExpr := call.Args[ai]
+			for {
+				if pe, isP := argExpr.(*ast.ParenExpr); isP {
+					argExpr = pe.X
+					continue
+				}
+				break
+			}
+			if _, isLit := argExpr.(*ast.FuncLit); isLit && nm.Name != "_" {
+				// a function literal argument is bound directly to the parameter's name, so that a
+				// later round can see it as a local closure and inline its calls too (evaluating
+				// a literal has no effect, so it needs no evaluation slot of its own)
+				inner = append(inner, nm.Name)
+				outer = append(outer, at)
+				ai++
+				continue
+			}
 			fmt.Fprintf(&b, "var %s %s = %s; _ = %s; ", av, t, at, av)
 			if nm.Name != "_" {
 				inner = append(inner, nm.Name)
@@ -736,6 +878,9 @@ func (il *inliner) tryStmt(p *packages.Package, file string, s ast.Stmt) (inline
 	if rs, isRet := s.(*ast.ReturnStmt); isRet && len(rs.Results) > 1 && len(resVars) != 1 {
 		return inlineGroup{}, false
 	}
+	if il.requireSingle && len(resVars) != 1 {
+		return inlineGroup{}, false
+	}
 	if isExprStmt {
 		g.edits = append(g.edits, srcEdit{off: cs, end: ce, text: "_ = 0" + il.lineDir(call.End())})
 	} else {
@@ -745,7 +890,7 @@ func (il *inliner) tryStmt(p *packages.Package, file string, s ast.Stmt) (inline
 		g.edits = append(g.edits, srcEdit{off: cs, end: ce, text: strings.Join(resVars, ", ") + il.lineDir(call.End())})
 	}
 	cp := il.fset.Position(call.Pos())
-	g.note = fmt.Sprintf("%s inlined at %s:%d", funcKey(callee), filepath.Base(cp.Filename), cp.Line)
+	g.note = fmt.Sprintf("%s inlined at %s:%d", calleeName, filepath.Base(cp.Filename), cp.Line)
 	return g, true
 }
 
@@ -806,4 +951,130 @@ func (il *inliner) bodyText(fs *funcSrc, label string, resVars, resNames []strin
 		text = append(text[:r.off:r.off], append([]byte(r.text), text[r.end:]...)...)
 	}
 	return string(bytes.TrimRight(text, " \t"))
+}
+
+// localClosure: the call's function is a local variable that is defined once by a function
+// literal and is used for nothing but being called. Returns the literal as an inlinable callee.
+func (il *inliner) localClosure(p *packages.Package, file string, call *ast.CallExpr) *funcSrc {
+	id, ok := call.Fun.(*ast.Ident)
+	if !ok {
+		return nil
+	}
+	v, ok := p.TypesInfo.Uses[id].(*types.Var)
+	if !ok || v.IsField() || v.Parent() == nil || v.Parent() == p.Types.Scope() {
+		return nil
+	}
+	if il.closureCache == nil {
+		il.closureCache = map[*types.Var]*funcSrc{}
+		il.closureBad = map[*types.Var]bool{}
+		for _, q := range il.pkgs {
+			for i, f := range q.Syntax {
+				qfile := q.CompiledGoFiles[i]
+				callPos := map[*ast.Ident]bool{}
+				ast.Inspect(f, func(n ast.Node) bool {
+					switch x := n.(type) {
+					case *ast.CallExpr:
+						if fi, ok := x.Fun.(*ast.Ident); ok {
+							callPos[fi] = true
+						}
+					case *ast.AssignStmt:
+						// `_ = f` keeps a variable used without doing anything with it
+						allBlank := true
+						for _, l := range x.Lhs {
+							if li, isID := l.(*ast.Ident); !isID || li.Name != "_" {
+								allBlank = false
+							}
+						}
+						if allBlank {
+							for _, rh := range x.Rhs {
+								if ri, isID := rh.(*ast.Ident); isID {
+									callPos[ri] = true
+								}
+							}
+						}
+						if x.Tok == token.DEFINE && len(x.Lhs) == len(x.Rhs) {
+							for k := range x.Lhs {
+								li, isID := x.Lhs[k].(*ast.Ident)
+								lit, isLit := x.Rhs[k].(*ast.FuncLit)
+								if isID && isLit {
+									if dv, ok := q.TypesInfo.Defs[li].(*types.Var); ok {
+										sg, _ := q.TypesInfo.TypeOf(lit).(*types.Signature)
+										il.closureCache[dv] = &funcSrc{sig: sg, lit: lit, decl: &ast.FuncDecl{Type: lit.Type, Body: lit.Body}, pkg: q, file: qfile, cvar: dv, defEnd: x.End()}
+									}
+								}
+							}
+						}
+					}
+					return true
+				})
+				for uid, obj := range q.TypesInfo.Uses {
+					if uv, ok := obj.(*types.Var); ok && !callPos[uid] {
+						// used as a value, assigned, or captured for something else
+						if uid.Pos() >= f.Pos() && uid.End() <= f.End() {
+							il.closureBad[uv] = true
+						}
+					}
+				}
+			}
+		}
+	}
+	if il.closureBad[v] {
+		return nil
+	}
+	fs := il.closureCache[v]
+	if fs == nil || fs.file != file {
+		return nil
+	}
+	// the literal must not call its own variable (recursion)
+	rec := false
+	ast.Inspect(fs.lit, func(n ast.Node) bool {
+		if ci, ok := n.(*ast.Ident); ok && p.TypesInfo.Uses[ci] == types.Object(v) {
+			rec = true
+		}
+		return !rec
+	})
+	if rec {
+		return nil
+	}
+	return fs
+}
+
+// closureHygienic: every identifier of the literal that refers to something declared outside
+// it resolves to the same object at the call site (nothing was shadowed in between).
+func (il *inliner) closureHygienic(fs *funcSrc, p *packages.Package, at token.Pos) bool {
+	inner := p.Types.Scope().Innermost(at)
+	if inner == nil {
+		return false
+	}
+	ok := true
+	var check func(n ast.Node)
+	check = func(n ast.Node) {
+		ast.Inspect(n, func(m ast.Node) bool {
+			if sel, isSel := m.(*ast.SelectorExpr); isSel {
+				check(sel.X)
+				return false
+			}
+			id, isID := m.(*ast.Ident)
+			if !isID || !ok {
+				return ok
+			}
+			obj := p.TypesInfo.Uses[id]
+			if obj == nil {
+				return true
+			}
+			if obj.Pos() >= fs.lit.Pos() && obj.Pos() <= fs.lit.End() {
+				return true // declared inside the literal
+			}
+			if v, isVar := obj.(*types.Var); isVar && v.IsField() {
+				return true
+			}
+			if _, found := inner.LookupParent(id.Name, at); found != obj {
+				ok = false
+			}
+			return ok
+		})
+	}
+	check(fs.lit.Type)
+	check(fs.lit.Body)
+	return ok
 }
